@@ -357,9 +357,14 @@ func TestVerifReplay(t *testing.T) {
 			cur = nil
 		}
 	}
+	raced := strings.Contains(string(out), "WARNING: DATA RACE")
 	for _, r := range res {
 		if !r.Ran {
 			r.Output = tail(string(out), 2000)
+		}
+		if raced {
+			r.Ran = true
+			r.Failures = append(r.Failures, "race: the Go race detector reported a data race")
 		}
 	}
 	return res, nil
@@ -631,7 +636,12 @@ func RunProperty(id, tier string, seed int64) int {
 			if !known {
 				nViol++
 				rf := &ReplayFile{Property: id, Harness: "custom", Func: "custom", Kind: "obligation", Label: parts[0], Detail: f, Expect: "fail"}
-				p := writeReplay(rf)
+				p := ""
+				if i := strings.LastIndex(f, "|replay="); i >= 0 {
+					p = f[i+8:]
+				} else {
+					p = writeReplay(rf)
+				}
 				lines = append(lines, fmt.Sprintf("VIOLATION property=%s replay=%s", id, p))
 				fmt.Printf("  violated: %s\n", f)
 			}
